@@ -179,22 +179,47 @@ func normJSON(v interface{}) interface{} {
 type xnode struct {
 	Kind, Local, Prefix, URI, Text string
 	Kids                           []*xnode
+	alt                            []string // reference only: every prefix in scope that is bound to URI
 }
 
+// xmlRefDOM: an independent DOM from the decoder's *raw* tokens (names as written) with namespace scoping done here:
+// a declaration holds for the declaring element and its descendants (https://www.w3.org/TR/xml-names/#scoping-defaulting).
+// Prefix is the prefix as written; alt lists every prefix that denotes the same URI at that point (the decoder proper
+// reports URIs only, so each of them is a faithful rendering).
 func xmlRefDOM(text string) (*xnode, error) {
 	d := xml.NewDecoder(strings.NewReader(text))
 	root := &xnode{Kind: "doc"}
 	stack := []*xnode{root}
-	// namespace scoping (https://www.w3.org/TR/xml-names/#scoping-defaulting): a declaration holds for the declaring
-	// element and its descendants; the prefix of a URI is that of its innermost declaration in scope
-	prefixOf := map[string]string{"http://www.w3.org/XML/1998/namespace": "xml"}
-	type saved struct {
-		uri, prefix string
-		bound       bool
+	type decl struct{ prefix, uri string }
+	scopes := [][]decl{{{"xml", "http://www.w3.org/XML/1998/namespace"}}}
+	resolve := func(prefix string) string {
+		for i := len(scopes) - 1; i >= 0; i-- {
+			for j := len(scopes[i]) - 1; j >= 0; j-- {
+				if scopes[i][j].prefix == prefix {
+					return scopes[i][j].uri
+				}
+			}
+		}
+		return ""
 	}
-	var scopes [][]saved
+	boundBy := func(uri string) []string {
+		var out []string
+		seen := map[string]bool{}
+		for i := len(scopes) - 1; i >= 0; i-- {
+			for j := len(scopes[i]) - 1; j >= 0; j-- {
+				p := scopes[i][j].prefix
+				if !seen[p] {
+					seen[p] = true
+					if scopes[i][j].uri == uri {
+						out = append(out, p)
+					}
+				}
+			}
+		}
+		return out
+	}
 	for {
-		tok, err := d.Token()
+		tok, err := d.RawToken()
 		if err == io.EOF {
 			return root, nil
 		}
@@ -204,24 +229,26 @@ func xmlRefDOM(text string) (*xnode, error) {
 		top := stack[len(stack)-1]
 		switch t := tok.(type) {
 		case xml.StartElement:
-			var sv []saved
+			var sc []decl
 			for _, a := range t.Attr {
-				if a.Name.Local == "xmlns" && a.Name.Space == "" {
-					old, ok := prefixOf[a.Value]
-					sv = append(sv, saved{a.Value, old, ok})
-					prefixOf[a.Value] = ""
+				if a.Name.Space == "" && a.Name.Local == "xmlns" {
+					sc = append(sc, decl{"", a.Value})
 				} else if a.Name.Space == "xmlns" {
-					old, ok := prefixOf[a.Value]
-					sv = append(sv, saved{a.Value, old, ok})
-					prefixOf[a.Value] = a.Name.Local
+					sc = append(sc, decl{a.Name.Local, a.Value})
 				}
 			}
-			scopes = append(scopes, sv)
-			e := &xnode{Kind: "elem", Local: t.Name.Local, URI: t.Name.Space, Prefix: prefixOf[t.Name.Space]}
+			scopes = append(scopes, sc)
+			e := &xnode{Kind: "elem", Local: t.Name.Local, Prefix: t.Name.Space, URI: resolve(t.Name.Space)}
+			if e.URI != "" {
+				e.alt = boundBy(e.URI)
+			}
 			for _, a := range t.Attr {
-				an := &xnode{Kind: "attr", Local: a.Name.Local, URI: a.Name.Space, Prefix: prefixOf[a.Name.Space], Text: a.Value}
-				if a.Name.Space == "xmlns" {
-					an.URI, an.Prefix = "", "xmlns"
+				an := &xnode{Kind: "attr", Local: a.Name.Local, Prefix: a.Name.Space, Text: a.Value}
+				switch {
+				case a.Name.Space == "xmlns": // a declaration: the tree keeps it as an attribute with prefix xmlns and no URI
+				case a.Name.Space != "": // an unprefixed attribute is in no namespace
+					an.URI = resolve(a.Name.Space)
+					an.alt = boundBy(an.URI)
 				}
 				e.Kids = append(e.Kids, an)
 			}
@@ -229,19 +256,36 @@ func xmlRefDOM(text string) (*xnode, error) {
 			stack = append(stack, e)
 		case xml.EndElement:
 			stack = stack[:len(stack)-1]
-			sv := scopes[len(scopes)-1]
 			scopes = scopes[:len(scopes)-1]
-			for i := len(sv) - 1; i >= 0; i-- {
-				if sv[i].bound {
-					prefixOf[sv[i].uri] = sv[i].prefix
-				} else {
-					delete(prefixOf, sv[i].uri)
-				}
-			}
 		case xml.CharData:
 			top.Kids = append(top.Kids, &xnode{Kind: "text", Text: string(t)})
 		}
 	}
+}
+
+// sameXTree: equal trees; where the reference lists several prefixes for a URI any of them is accepted
+func sameXTree(got, ref *xnode) bool {
+	if got == nil || ref == nil {
+		return got == ref
+	}
+	if got.Kind != ref.Kind || got.Local != ref.Local || got.URI != ref.URI || got.Text != ref.Text || len(got.Kids) != len(ref.Kids) {
+		return false
+	}
+	if got.Prefix != ref.Prefix {
+		ok := false
+		for _, p := range ref.alt {
+			ok = ok || p == got.Prefix
+		}
+		if !ok {
+			return false
+		}
+	}
+	for i := range got.Kids {
+		if !sameXTree(got.Kids[i], ref.Kids[i]) {
+			return false
+		}
+	}
+	return true
 }
 
 func idrToX(n *idr.Node) *xnode {
@@ -348,7 +392,7 @@ func c08XML(args []string) int {
 			got = idrToX(nd.Parent)
 		})
 		sum.eval(strings.Contains(text, ":") || strings.Count(text, "<") > 4, M{"x": text})
-		if pv != "" || rerr != nil || !reflect.DeepEqual(got, ref) {
+		if pv != "" || rerr != nil || !sameXTree(got, ref) {
 			nviol++
 			if nviol <= 20 {
 				gb, _ := json.Marshal(got)
@@ -364,7 +408,124 @@ func c08XML(args []string) int {
 	return 0
 }
 
+// ---- XMLTree.tla cases: namespace scoping
+
+type nsDoc struct {
+	N   int      `json:"n"`
+	Par []int    `json:"par"`
+	Pfx []string `json:"pfx"`
+	Dd  []string `json:"dd"`
+	Dp  []string `json:"dp"`
+	Dq  []string `json:"dq"`
+	Ap  []string `json:"ap"`
+}
+type nsCase struct {
+	D   nsDoc           `json:"d"`
+	Exp [][]interface{} `json:"exp"` // [kind, prefix, local, uri, depth]
+	Nt  bool            `json:"nt"`
+}
+
+func (d *nsDoc) render(i int, sb *strings.Builder) {
+	name := "a"
+	if d.Pfx[i-1] != "" {
+		name = d.Pfx[i-1] + ":a"
+	}
+	sb.WriteString("<" + name)
+	if d.Dd[i-1] != "" {
+		sb.WriteString(` xmlns="` + d.Dd[i-1] + `"`)
+	}
+	if d.Dp[i-1] != "" {
+		sb.WriteString(` xmlns:p="` + d.Dp[i-1] + `"`)
+	}
+	if d.Dq[i-1] != "" {
+		sb.WriteString(` xmlns:q="` + d.Dq[i-1] + `"`)
+	}
+	switch d.Ap[i-1] {
+	case "-":
+	case "":
+		sb.WriteString(` k="1"`)
+	default:
+		sb.WriteString(` ` + d.Ap[i-1] + `:k="1"`)
+	}
+	sb.WriteString(">")
+	for j := 1; j <= d.N; j++ {
+		if d.Par[j-1] == i {
+			d.render(j, sb)
+		}
+	}
+	sb.WriteString("</" + name + ">")
+}
+
+func flattenNS(n *idr.Node, depth int, out *[][]interface{}) {
+	xs := idr.XMLSpecific{}
+	if idr.IsXML(n) {
+		xs = idr.XMLSpecificOf(n)
+	}
+	switch n.Type {
+	case idr.ElementNode:
+		*out = append(*out, []interface{}{"E", xs.NamespacePrefix, n.Data, xs.NamespaceURI, depth})
+	case idr.AttributeNode:
+		*out = append(*out, []interface{}{"A", xs.NamespacePrefix, n.Data, xs.NamespaceURI, depth})
+		return
+	default:
+		return
+	}
+	for c := n.FirstChild; c != nil; c = c.NextSibling {
+		flattenNS(c, depth+1, out)
+	}
+}
+
+// c08-ns <cases.ndjson>
+func c08NS(args []string) int {
+	sum := newSummary()
+	nviol := 0
+	err := readLines(args[0], func(line []byte) error {
+		var c nsCase
+		if e := json.Unmarshal(line, &c); e != nil {
+			return e
+		}
+		var sb strings.Builder
+		c.D.render(1, &sb)
+		text := sb.String()
+		var got [][]interface{}
+		var rerr error
+		pv, _ := guarded(0, func() {
+			sr, e := idr.NewXMLStreamReader(strings.NewReader(text), "/*")
+			if e != nil {
+				rerr = e
+				return
+			}
+			nd, e := sr.Read()
+			if e != nil {
+				rerr = e
+				return
+			}
+			flattenNS(nd, 0, &got)
+		})
+		sum.eval(c.Nt, M{"x": text})
+		if pv != "" || rerr != nil || jsonOf(got) != jsonOf(c.Exp) {
+			nviol++
+			if nviol <= 20 {
+				violation("C08", "xml-namespace-scoping", fmt.Sprintf("XML %s: elements / attributes (kind, prefix, local, URI, depth) expected %v, the tree has %v %v %s", text, c.Exp, got, rerr, pv),
+					M{"xml": text, "expected": c.Exp, "actual": got})
+			}
+		}
+		if c.Nt {
+			sum.sample(M{"xml": text, "expected": c.Exp})
+		}
+		return nil
+	})
+	if err != nil {
+		fmt.Println("error:", err)
+		return 3
+	}
+	sum.inc("mismatches", nviol)
+	sum.done()
+	return 0
+}
+
 func init() {
+	cmds["c08-ns"] = c08NS
 	cmds["c08-replay"] = c08Replay
 	cmds["c08-xml"] = c08XML
 }
